@@ -286,6 +286,43 @@ pub fn run(cases_path: &str, out_path: &str, tier: &str, seed: u64) {
         sink.put(rec("c12.s2k", json!({"type": "argon2", "t": t, "p": p, "m_enc": m, "keylen": keylen}), r.is_ok(), "s2k", json!({"outcome": r.class(), "detail": r.detail()})));
     });
 
+    // ---- legacy SED (tag 9) through the public cipher interface: prefix with its two repeated octets, then re-synchronised CFB
+    let sed_cases: Vec<&Value> = cases.iter().filter(|c| c["kind"] == "sed").collect();
+    sed_cases.par_iter().enumerate().for_each(|(i, c)| {
+        let plan = &c["plan"];
+        let cipher = c["cipher"].as_u64().unwrap();
+        let plen = c["plen"].as_u64().unwrap() as usize;
+        let (keylen, bs) = keylen_bs(cipher);
+        let pt = rand_bytes(seed ^ 0x5ED ^ i as u64, plen);
+        let sk = rand_bytes(seed ^ 0x5EE ^ i as u64, keylen);
+        nt();
+        let cj = json!({"kind": "sed", "cipher": cipher, "plen": plen});
+        let r = guard(|| -> Result<(), String> {
+            let e = |x: pgp::errors::Error| x.to_string();
+            let (from, to) = (plan["resync_iv_from"].as_u64().unwrap() as usize, plan["resync_iv_to"].as_u64().unwrap() as usize);
+            // crate -> plan
+            let ct = sym(cipher).encrypt(rng(seed ^ i as u64), &sk, &pt).map_err(e)?;
+            if ct.len() != plan["ctlen"].as_u64().unwrap() as usize { return Err(format!("ciphertext is {} octets, the plan says {}", ct.len(), plan["ctlen"])); }
+            let prefix = prim::cfb(cipher, &sk, &vec![0u8; bs], &ct[..bs + 2], true)?;
+            if prefix[bs - 2..bs] != prefix[bs..bs + 2] { return Err("what the crate emitted: the prefix does not repeat its last two octets".into()); }
+            let opened = prim::cfb(cipher, &sk, &ct[from..to], &ct[bs + 2..], true)?;
+            if opened != pt { return Err("crate -> RFC construction: plaintext differs".into()); }
+            // plan -> crate
+            let mut p = rand_bytes(seed ^ 0x5EF ^ i as u64, bs);
+            let rep = p[bs - 2..].to_vec();
+            p.extend_from_slice(&rep);
+            let mut body = prim::cfb(cipher, &sk, &vec![0u8; bs], &p, false)?;
+            let rest = prim::cfb(cipher, &sk, &body[from..to], &pt, false)?;
+            body.extend(rest);
+            let mut d = sym(cipher).stream_decryptor_unprotected(&sk, &body[..]).map_err(|x| format!("the RFC construction is rejected by the crate: {x}"))?;
+            let mut got = Vec::new();
+            d.read_to_end(&mut got).map_err(|x| format!("the RFC construction is rejected by the crate: {x}"))?;
+            if got != pt { return Err("RFC construction -> crate: plaintext differs".into()); }
+            Ok(())
+        });
+        sink.put(rec("c12.sed", cj, r.is_ok(), "sed", json!({"outcome": r.class(), "detail": r.detail()})));
+    });
+
     // ---- SEIPD v2 / v1 packets, both directions, at the plan's plaintext lengths
     let big_ok = |c: &Value| thorough || c["plen"].as_u64().unwrap() <= 200_000;
     let enc_cases: Vec<&Value> = cases.iter().filter(|c| matches!(c["kind"].as_str(), Some("seipd2") | Some("seipd1")) && big_ok(c)).collect();
